@@ -9,6 +9,7 @@
     Proofs: Runner/LockDiscipline.v.  Not modelled: scheduler fairness, real time. *)
 From Coq Require Import Arith Bool List.
 From CanVerif Require Import Runner.Lts Runner.RunModel Runner.LockDiscipline Runner.Protocol Runner.RunLts Runner.RunProofs.
+From CanVerif Require Import Runner.Program Runner.ProgramProofs.
 Import ListNotations.
 
 (** I1: in every reachable state the mutex owner is exactly the thread inside a critical section *)
@@ -152,4 +153,73 @@ Example C13_nonvacuous :
   (* hook 7 installed; replaced by 9 in the window after the runner's Unlock: 7 runs for this frame, 9 for the next *)
   (match krun (kinit 7) [KLock; KUnlock; KSet 9; KCall 7; KLock; KUnlock; KCall 9] with Some _ => True | None => False end) /\
   krun (kinit 7) [KLock; KUnlock; KSet 9; KCall 9] = None /\ krun (kinit 7) [KLock; KSet 9] = None.
+Proof. vm_compute. repeat split. Qed.
+
+(** ACTION-SEQUENCE TIE (DESIGN.md 9.6).  Runner/Program.v: an action program = the control-flow graph of one Go function as
+    the strict extractor harness/runwire reads it from the CURRENT source text (node = class, statement text, successors);
+    [ostep p (pc,h) (pc',h')] = one own step of a thread (h = "I hold the node lock"; a Lock node is enabled only with
+    h = false), [oreach] = reachable from (entry, lock not held), [osteps] = a path with the list of executed pcs;
+    [prog_lock_ok] = the decidable checker evaluated on every extracted function at run time.
+    For ANY program the checker accepts: a message-state action (class CMsg) or an Unlock is only ever executed with the
+    lock held ... *)
+Theorem C13_prog_msg_access_under_lock : forall p, prog_lock_ok p = true ->
+  forall pc h n, oreach p (pc, h) -> nth_error p pc = Some n ->
+  (n_cls n = CMsg \/ n_cls n = CUnlock) -> h = true.
+Proof. exact msg_access_under_lock. Qed.
+Print Assumptions C13_prog_msg_access_under_lock.
+
+(** ... and a hook call, a blocking action (TransmitFrame, channel receive, g.Wait), a select, a closure call, a goroutine
+    start, a return and a Lock only with the lock NOT held (so a hook may lock, nothing blocks under the lock, no function
+    returns holding it, no Lock on a mutex the thread already holds) *)
+Theorem C13_prog_hooks_and_blocking_unlocked : forall p, prog_lock_ok p = true ->
+  forall pc h n, oreach p (pc, h) -> nth_error p pc = Some n ->
+  (n_cls n = CHook \/ n_cls n = CBlock \/ n_cls n = CSelect \/ n_cls n = CRet \/ n_cls n = CCallFn \/ n_cls n = CGo
+   \/ n_cls n = CLock) -> h = false.
+Proof. exact release_points_unlocked. Qed.
+Print Assumptions C13_prog_hooks_and_blocking_unlocked.
+
+(** on every path from a message-state action to a hook call / blocking action / select / return / closure call an Unlock
+    node is executed *)
+Theorem C13_prog_unlock_before_release : forall p, prog_lock_ok p = true ->
+  forall pc h l pc' h' n n',
+  oreach p (pc, h) -> osteps p (pc, h) l (pc', h') ->
+  nth_error p pc = Some n -> n_cls n = CMsg ->
+  nth_error p pc' = Some n' ->
+  (n_cls n' = CHook \/ n_cls n' = CBlock \/ n_cls n' = CSelect \/ n_cls n' = CRet \/ n_cls n' = CCallFn \/ n_cls n' = CGo
+   \/ n_cls n' = CLock) ->
+  exists k m, In k l /\ nth_error p k = Some m /\ n_cls m = CUnlock.
+Proof. exact msg_then_unlock_before_release. Qed.
+Print Assumptions C13_prog_unlock_before_release.
+
+(** over the shared mutex of the LTS ([pstep p t]: Lock needs owner = None and makes t the owner, Unlock frees it): a step
+    of thread t whose view "h" agrees with the owner field is an own step, and the agreement is kept - so the three
+    theorems above speak about [owner s = Some t] *)
+Theorem C13_prog_shared_owner : forall p t pc o pc' o' h,
+  pstep p t (pc, o) (pc', o') -> (o = Some t <-> h = true) ->
+  exists h', ostep p (pc, h) (pc', h') /\ (o' = Some t <-> h' = true).
+Proof. exact pstep_is_ostep. Qed.
+Print Assumptions C13_prog_shared_owner.
+
+(** the reference programs (transcription of RunMessageReceiver, RunMessageTransmitter with its four closures, Run with
+    its three goroutine bodies) are accepted; the run-time comparison [first_diff extracted reference = None] means equality *)
+Theorem C13_reference_programs_lock_ok :
+  prog_lock_ok receiver_prog = true /\ forallb prog_lock_ok transmitter_prog = true /\ forallb prog_lock_ok run_prog = true.
+Proof. exact (conj receiver_prog_lock_ok (conj transmitter_progs_lock_ok run_progs_lock_ok)). Qed.
+Print Assumptions C13_reference_programs_lock_ok.
+
+Theorem C13_extracted_equal_is_reference : forall p q, first_diff p q = None -> p = q.
+Proof. exact first_diff_none_eq. Qed.
+Print Assumptions C13_extracted_equal_is_reference.
+
+(** non-vacuity of the checker: the receiver with `continue` placed after n.Lock() (node 3/4 moved behind the Lock), a
+    Frame() outside the lock, a hook called before Unlock are all rejected; the receiver's reachable configurations
+    include a message access and the hook call *)
+Example C13_action_programs_nonvacuous :
+  prog_lock_ok [mkNode CLock [] [1]; mkNode CTest [] [2; 3]; mkNode CAssign [] [0]; mkNode CMsg [] [4]; mkNode CUnlock [] [5]; mkNode CRet [] []] = false /\
+  prog_lock_ok [mkNode CLock [] [1]; mkNode CUnlock [] [2]; mkNode CMsg [] [3]; mkNode CRet [] []] = false /\
+  prog_lock_ok [mkNode CLock [] [1]; mkNode CMsg [] [2]; mkNode CHook [] [3]; mkNode CUnlock [] [4]; mkNode CRet [] []] = false /\
+  prog_lock_ok [mkNode CLock [] [1]; mkNode CMsg [] [2]; mkNode CTest [] [3; 4]; mkNode CRet [] []; mkNode CUnlock [] [3]] = false /\
+  first_lock_violation [mkNode CLock [] [1]; mkNode CUnlock [] [2]; mkNode CMsg [] [3]; mkNode CRet [] []] = Some 2 /\
+  cls_at receiver_prog 8 = Some CMsg /\ cls_at receiver_prog 12 = Some CHook /\
+  first_diff receiver_prog receiver_prog = None /\ first_diff receiver_prog (removelast receiver_prog) = Some 18.
 Proof. vm_compute. repeat split. Qed.
